@@ -55,33 +55,52 @@ def ambiguity_counts(cv, type_measure, eta_max, eta_step, eps):
 
 
 def risk(cv, type_measure, eta_max, eta_step, eps):
-    """Per pixel risk_max / risk_min brackets on NaN-free curves (index units); NaN elsewhere."""
+    """Per pixel risk_max / risk_min brackets on NaN-free curves (index units); NaN elsewhere.
+
+    For every eta the disparities are split into 'certainly within', 'certainly outside' and 'borderline' (within
+    eps of the threshold); every subset of the borderline ones is tried (the implementation's float32 comparisons
+    may fall either way, independently), which gives a [min, max] per eta; the means of those bound the result."""
+    import itertools
+
     n = normalise(cv, type_measure)
     H, W, D = n.shape
     out = {k: np.full((H, W), np.nan) for k in ("max_lo", "max_hi", "min_lo", "min_hi")}
     idx = np.arange(D)
+    sets = eta_sets(eta_max, eta_step)
     for y in range(H):
         for x in range(W):
             c = n[y, x]
             if np.isnan(c).any():
                 continue
             b = c.min()
-            cand_max, cand_min = [], []
-            for es in eta_sets(eta_max, eta_step):
-                vals = {"lo": [], "hi": []}
-                mins = {"lo": [], "hi": []}
+            cand = {"max_lo": [], "max_hi": [], "min_lo": [], "min_hi": []}
+            skip = False
+            for es in sets:
+                sp_lo, sp_hi, mn_lo, mn_hi = [], [], [], []
                 for e in es:
-                    for tag, sgn in (("lo", -1), ("hi", 1)):
-                        sel = c <= b + e + sgn * eps
-                        if not sel.any():
-                            sel = c <= b  # the best itself is always within
-                        spread = idx[sel].max() - idx[sel].min()
-                        vals[tag].append(spread)
-                        mins[tag].append(1 + spread - sel.sum())
-                cand_max += [np.mean(vals["lo"]), np.mean(vals["hi"])]
-                cand_min += [np.mean(mins["lo"]), np.mean(mins["hi"])]
-            out["max_lo"][y, x], out["max_hi"][y, x] = min(cand_max), max(cand_max)
-            out["min_lo"][y, x], out["min_hi"][y, x] = min(cand_min), max(cand_min)
+                    sure = c <= b + e - eps
+                    sure |= c == b
+                    border = np.where((c <= b + e + eps) & ~sure)[0]
+                    if len(border) > 6:
+                        skip = True
+                        break
+                    sp, mn = [], []
+                    for r in range(len(border) + 1):
+                        for comb in itertools.combinations(border, r):
+                            sel = sure.copy()
+                            sel[list(comb)] = True
+                            spread = idx[sel].max() - idx[sel].min()
+                            sp.append(spread)
+                            mn.append(1 + spread - sel.sum())
+                    sp_lo.append(min(sp)); sp_hi.append(max(sp)); mn_lo.append(min(mn)); mn_hi.append(max(mn))
+                if skip:
+                    break
+                cand["max_lo"].append(np.mean(sp_lo)); cand["max_hi"].append(np.mean(sp_hi))
+                cand["min_lo"].append(np.mean(mn_lo)); cand["min_hi"].append(np.mean(mn_hi))
+            if skip:
+                continue
+            out["max_lo"][y, x], out["max_hi"][y, x] = min(cand["max_lo"]), max(cand["max_hi"])
+            out["min_lo"][y, x], out["min_hi"][y, x] = min(cand["min_lo"]), max(cand["min_hi"])
     return out
 
 
